@@ -71,7 +71,7 @@ func runTrie(seed uint64, n int, outDir string, replay string) {
 			defer func() {
 				if p := recover(); p != nil {
 					o.Violate("trie-panic", fmt.Sprintf("panic: %v at %s", p, stackTop()))
-					ans(fmt.Sprintf("panic %v", p))
+					o.Pad("panic %v", p)
 				}
 			}()
 			if rc.Chance(15) {
